@@ -37,6 +37,12 @@
 #ifndef E_TYPEDEF
 #define E_TYPEDEF 0u
 #endif
+#ifndef CODE_FROM
+#define CODE_FROM 0u
+#endif
+#ifndef CODE_TO
+#define CODE_TO 1u          // exclusive; 2^(number of free edge bits) covers the whole family
+#endif
 #define NTY (NL + 1)          // type indices 1..NL: the global classes; NL+1: a class that is not global
 
 static std::ostream *the_out;
@@ -111,24 +117,18 @@ TypeIndex interrogate_type_wrapped_type(TypeIndex t) {
 }
 }
 
-extern "C" void harness_c16_graph() {
-  __ll2c_global_ctors();                     // std::cerr for the cycle diagnostics; module_name / library_name
-  module_name.push_back('m');
-  library_name.push_back('L');
-  the_out = vs_ostream_sink();
-
+// One labelled digraph: the free edge bits are taken from `code` (bit i of code = i-th free edge in row-major order).
+// noinline: a fresh frame per case, so that CBMC's per-frame loop counters start at 0 for every case.
+static void __attribute__((noinline)) run_case(unsigned code) {
   for (int u = 0; u < NL; u++) {
-    lib_name[u][0] = (char)('a' + u);
-    lib_name[u][1] = 0;
     n_slots[u] = 0;
     td_lib[u] = -1;
     for (int v = 0; v < NL; v++) {
       unsigned bit = 1u << (u * NL + v);
       if (u == v) { E[u][v] = false; continue; }
       if (E_ONE & bit) E[u][v] = true;
-      else if (E_ZERO & bit) E[u][v] = false;
-      else E[u][v] = nondet_bool();
-      if ((E_ZERO & bit) && !(E_ONE & bit)) continue;       // a slot that could never hold an edge is not created
+      else if (E_ZERO & bit) { E[u][v] = false; continue; }  // a slot that could never hold an edge is not created
+      else { E[u][v] = (code & 1u) != 0; code >>= 1; }
       if ((E_TYPEDEF & bit) && td_lib[u] < 0) td_lib[u] = v;
       else slot_lib[u][n_slots[u]++] = v;
     }
@@ -166,5 +166,24 @@ extern "C" void harness_c16_graph() {
         ASSERT(!(E[u][v] && !reach[v][u]) || pos[v] < pos[u],
                "C16 a library is initialised after the library of a base class / typedef target unless the two are on a dependency cycle");
       }
+}
+
+extern "C" void harness_c16_graph() {
+  __ll2c_global_ctors();                     // std::cerr for the cycle diagnostics; module_name / library_name
+  module_name.push_back('m');
+  library_name.push_back('L');
+  the_out = vs_ostream_sink();
+  for (int u = 0; u < NL; u++) { lib_name[u][0] = (char)('a' + u); lib_name[u][1] = 0; }
+
+  // the symbolic input: the values of the free edge bits
+  unsigned mask = nondet_uint();
+  ASSUME(mask >= CODE_FROM && mask < CODE_TO);
+  // Case split on the symbolic value: inside a branch the edge bits are constants, so the shape of the
+  // std::map<string, set<string>> the tool builds is concrete on every path (a set whose membership is symbolic has
+  // symbolic node pointers and symbolic execution does not finish even for two libraries).
+  // Every case starts from the pristine state (the branch leaves the loop: no state of one case is merged into the next).
+  for (unsigned code = CODE_FROM; code < CODE_TO; code++) {
+    if (mask == code) { run_case(code); break; }
+  }
   WITNESS();
 }
